@@ -129,7 +129,8 @@ class ChunkedTransferReader(object):
 
             trailer_data_list.append(trailer_data)
 
-            if not trailer_data.strip():
+            if trailer_data in (b'\r\n', b'\n', b''):
+                # A line of only white space is a folded field, not the end
                 break
 
         return b''.join(trailer_data_list)
